@@ -99,6 +99,15 @@ func (w *World) VerifyFunc(lc *LoadedContract, opts VerifyOpts) (res *FuncResult
 		res.Trusted = sortedKeys(ex.trusted)
 		res.Used = sortedKeys(ex.usedContracts)
 		res.Inlined = sortedKeys(ex.inlined)
+		// the hash used to attribute regressions covers the bodies that were inlined
+		if len(ex.inlinedFns) > 0 {
+			var hs []string
+			for f := range ex.inlinedFns {
+				hs = append(hs, ssaHash(f))
+			}
+			sort.Strings(hs)
+			res.SSAHash = res.SSAHash + "+" + fmt.Sprintf("%x", hashString(strings.Join(hs, ",")))
+		}
 		res.Spawned = ex.spawned
 		if r := recover(); r != nil {
 			if u, ok := r.(unsupported); ok {
@@ -230,6 +239,15 @@ func (w *World) VerifyLemma(name string, ll *LoadedLemma) (res *FuncResult) {
 		res.Trusted = sortedKeys(ex.trusted)
 		res.Used = sortedKeys(ex.usedContracts)
 		res.Inlined = sortedKeys(ex.inlined)
+		// the hash used to attribute regressions covers the bodies that were inlined
+		if len(ex.inlinedFns) > 0 {
+			var hs []string
+			for f := range ex.inlinedFns {
+				hs = append(hs, ssaHash(f))
+			}
+			sort.Strings(hs)
+			res.SSAHash = res.SSAHash + "+" + fmt.Sprintf("%x", hashString(strings.Join(hs, ",")))
+		}
 		if r := recover(); r != nil {
 			if u, ok := r.(unsupported); ok {
 				res.Unsupported = u.msg
